@@ -23,6 +23,7 @@ from ..common import Violation
 PROP = "C19"
 STRUCTURED = ("Kronecker", "KronSum", "BlockDiag", "Diagonal", "Identity", "ScalarMul")
 SLACK = 4            # measured bytes may exceed the modelled element budget by this factor (allocator, dtype temporaries)
+VEC_FLOOR = 1 << 20  # vector- / scalar-valued entry points (diag, trace, logdet): 64 bytes per row plus 1 MiB
 FLOOR = 3 << 20      # plus a constant 3 MiB (interpreter objects, LAPACK workspaces of the small factors)
 
 
@@ -118,7 +119,8 @@ def entry_points(name, root):
     if root in ("Kronecker", "KronSum", "BlockDiag", "Diagonal", "Identity", "ScalarMul", "Sum"):
         E += [("diag()", lambda A, X: cola.linalg.diag(A, 0)),
               ("diag(Exact())", lambda A, X: cola.linalg.diag(A, 0, Exact())),
-              ("trace()", lambda A, X: cola.linalg.trace(A))]
+              ("trace()", lambda A, X: cola.linalg.trace(A)),
+              ("trace(Exact())", lambda A, X: cola.linalg.trace(A, Exact()))]
     if root in ("Kronecker", "BlockDiag", "Diagonal", "Identity", "ScalarMul"):
         E += [("sqrt()", lambda A, X: cola.linalg.sqrt(A) @ X),
               ("sqrt(Eigh())", lambda A, X: cola.linalg.sqrt(A, Eigh()) @ X),
@@ -282,6 +284,10 @@ def _run(tier, t0, viol, sub):
         if b is None:
             continue
         limit = SLACK * b["bound"] * 8 + FLOOR
+        if m["entry"].split("(")[0] in ("diag", "trace", "logdet", "slogdet"):
+            # no operand: the operand-proportional part of TLC's bound does not apply; a diagonal / a scalar assembled
+            # factor by factor needs a few vectors of length n (measured: <= 0.23 MiB at n = 4096..9216)
+            limit = 64 * m["n"] + VEC_FLOOR
         dense_bytes = m["n"] * m["n"] * 8
         at = {"case": m["name"], "entry": m["entry"], "root": m["root"], "n": m["n"]}
         if m["error"]:
